@@ -51,13 +51,18 @@ func randCase(r *Rng, s string) string {
 func runC17(c *Ctx) {
 	r := c.R
 	var hq []hashQuery
-	c.Res.Rule = "DNSKEY RDATA (all flag/protocol/algorithm values, key octets 0..4200 incl. carry-heavy ones), DS digest types, names x salts x iterations, NSEC3 interval shapes x hash positions built arithmetically around H(name), validity triples around the boundaries, key export/import for the supported algorithms; distinct by content"
+	c.Res.Rule = "DNSKEY RDATA (all flag/protocol/algorithm values, key octets 0..1200 and 4088..20000 incl. carry-heavy ones), DS digest types, names x salts x iterations, NSEC3 interval shapes x hash positions built arithmetically around H(name), validity triples around the boundaries, key export/import for the supported algorithms; distinct by content"
 	// 1. key tags
 	n := c.Scale(4000, 100000)
 	for i := 0; i < n; i++ {
 		kl := []int{0, 1, 2, 3, 4, 5, 32, 33, 64, 65, 130, 260, 520}[r.Intn(13)]
 		if r.Chance(5) {
 			kl = r.Intn(1200)
+		}
+		if i%200 == 7 {
+			// keys around and beyond the size of the library's default scratch buffer (4096 octets with the four fixed ones)
+			kl = []int{4088, 4091, 4092, 4093, 4096, 5000, 20000}[(i/200)%7]
+			c.Hit(fmt.Sprintf("keytag:long-key:%d", kl))
 		}
 		key := r.Bytes(kl)
 		if r.Chance(30) {
